@@ -37,7 +37,7 @@ const (
 )
 
 type scen struct {
-	mode       string // single | dedicated | standalone | sentinel | cluster | cluster-dedicated
+	mode       string // single | dedicated | standalone | redirect | sentinel | cluster | cluster-dedicated
 	api        string // do | domulti | docache | domulticache
 	errCls     string // closebefore | closeafter | loading | tryagain | clusterdown | err | nil | moved
 	cmdCls     string // ro | write | retryable | mixed (domulti: read-only commands plus one plain write)
@@ -228,6 +228,12 @@ func (w *world) setup() error {
 		s = fakeredis.New(opts, aP1)
 		o = drv.Option(s, aP1)
 		o.ForceSingleClient = true
+	case "redirect":
+		// standalone client with CLIENT CAPA redirect; a first command is answered REDIRECT <aP2>, so that the call under
+		// test runs against the primary the client switched to
+		s = fakeredis.New(opts, aP1, aP2)
+		o = drv.Option(s, aP1)
+		o.Standalone.EnableRedirect = true
 	case "standalone":
 		s = fakeredis.New(opts, aP1)
 		s.AddNode(aR1, "slave", s.Node(aP1))
@@ -272,6 +278,25 @@ func (w *world) setup() error {
 		return err
 	}
 	w.client = cl
+	if sc.mode == "redirect" {
+		warm := fmt.Sprintf("warm%d;", w.id)
+		red := resp.Err("REDIRECT " + aP2)
+		s.Plan(&fakeredis.Rule{Name: "redirect", Match: fakeredis.MatchArg(warm), Times: 1, Action: fakeredis.Action{Reply: &red}})
+		from := s.LogLen()
+		v, err := cl.Do(context.Background(), cl.B().Arbitrary("VERIF.ECHO").Keys("k:{t}:"+warm).Args(warm).ReadOnly()).ToString()
+		s.ClearPlan()
+		onNew := false
+		for _, e := range s.Log()[from:] {
+			if e.Kind == "recv" && e.Node == aP2 && len(e.Argv) > 2 && e.Argv[2] == warm {
+				onNew = true
+			}
+		}
+		if err != nil || v != "echo:"+warm || !onNew {
+			cl.Close()
+			return fmt.Errorf("the REDIRECT was not followed: %q %v served-by-new-primary=%v", v, err, onNew)
+		}
+		w.run.Observe("redirects_followed_before_the_call", 1)
+	}
 	return nil
 }
 
@@ -452,6 +477,7 @@ func (w *world) body() {
 			w.panicked = p
 		}
 	}()
+	w.ctx, w.cancel = context.WithCancel(context.Background()) // replaced below; RetryDelay may be consulted during setup
 	w.makeCmds() // before the server exists: its event hook reads the uid table
 	if err := w.setup(); err != nil {
 		w.run.Inconclusive("client construction failed: " + err.Error())
@@ -782,11 +808,12 @@ func combos() []combo {
 		"single":            {"do", "domulti", "docache", "domulticache"},
 		"dedicated":         {"do", "domulti"},
 		"standalone":        {"do", "domulti", "docache"},
+		"redirect":          {"do", "domulti", "docache", "domulticache"},
 		"sentinel":          {"do", "domulti", "docache", "domulticache"},
 		"cluster":           {"do", "domulti", "docache", "domulticache"},
 		"cluster-dedicated": {"do", "domulti"},
 	}
-	for _, mode := range []string{"single", "dedicated", "standalone", "sentinel", "cluster", "cluster-dedicated"} {
+	for _, mode := range []string{"single", "dedicated", "standalone", "redirect", "sentinel", "cluster", "cluster-dedicated"} {
 		for _, api := range apis[mode] {
 			errs := []string{"closebefore", "closeafter", "loading", "tryagain", "clusterdown", "err", "nil"}
 			if mode == "cluster" && (api == "do" || api == "domulti") {
@@ -817,7 +844,7 @@ func genScen(r *rand.Rand, cb combo) scen {
 	if r.Intn(3) == 0 {
 		sc.deadline = time.Second
 	}
-	if r.Intn(8) == 0 {
+	if r.Intn(8) == 0 || (cb.mode == "redirect" && r.Intn(2) == 0) {
 		sc.noRetry = true
 	}
 	switch r.Intn(12) {
@@ -838,7 +865,7 @@ func genScen(r *rand.Rand, cb combo) scen {
 
 func TestC28(t *testing.T) {
 	run := mon.Start(t, "C28", "fault_enumeration",
-		"every (client mode x call kind x error class x command class) combination - modes single / dedicated / standalone with replica / sentinel / cluster / cluster dedicated, calls Do / DoMulti(2-6) / DoCache / DoMultiCache, "+
+		"every (client mode x call kind x error class x command class) combination - modes single / dedicated / standalone with replica / standalone with EnableRedirect after a followed REDIRECT / sentinel / cluster / cluster dedicated, calls Do / DoMulti(2-6) / DoCache / DoMultiCache, "+
 			"errors connection closed before or after execution / LOADING / TRYAGAIN / CLUSTERDOWN / ordinary ERR / nil / MOVED, commands read-only / plain write / ToRetryable write / read-only batch with one plain write - several times with a random "+
 			"RetryDelay script (8 scripts of non-negative and negative answers), fault persistence 1-9 attempts, optional 1 s deadline, DisableRetry, context cancelled or client closed inside RetryDelay; one call per virtual-time bubble; "+
 			"a case = the scenario plus the number of consultations and re-sends it produced, non-trivial when the fault was met")
@@ -871,6 +898,6 @@ func TestC28(t *testing.T) {
 		}
 	}
 	run.Extra("combinations", len(cbs))
-	run.Require("consultations", "grants", "negative_answers", "retry_sends", "redirect_resends", "granted_retries_carried_out", "grants_not_fitting_before_deadline", "ordinary_replies_returned_unchanged",
+	run.Require("consultations", "grants", "negative_answers", "retry_sends", "redirect_resends", "redirects_followed_before_the_call", "granted_retries_carried_out", "grants_not_fitting_before_deadline", "ordinary_replies_returned_unchanged",
 		"calls_ended_by_negative_answer", "disable_retry_cases", "cancelled_in_callback", "closed_in_callback", "results_ok")
 }
